@@ -25,7 +25,7 @@ Definition fold_bin (k:bk) (a b:num) : fold :=
 
 Inductive rule := RAssoc | RComm (preferred:bool) | RConst | RFactor (constants:bool) | RDistr | RInverse | RRestate | RVarMul | RBalanced.
 
-Section R. Variable root : expr. Variable p : path.
+Section DR. Variable root : expr. Variable p : path.
 Definition node : option expr := subtree root p.
 Definition par := parent root p.
 
@@ -34,7 +34,7 @@ Definition assoc_can : bool := (is_k KAdd node && is_k KAdd par) || (is_k KMul n
 Definition assoc_apply : rres (expr * path) :=
   match parent_path p, node, par with
   | Some (q, d), Some (Bin kn a b), Some (Bin kp pl pr) =>
-    let n' := match d with L => Bin kn a (Bin kp b pr) | R => Bin kn (Bin kp pl a) b end in
+    let n' := match d with DL => Bin kn a (Bin kp b pr) | DR => Bin kn (Bin kp pl a) b end in
     ROk (replace root q n', q)
   | _,_,_ => ROk (root, p)   (* rotate on a root: no change *)
   end.
@@ -60,9 +60,9 @@ Definition comm_apply : rres (expr * path) :=
 (* ---- constants simplify ---- *)
 Inductive carr := C_SIMPLE | C_NEG | C_VARMULT | C_RIGHT | C_RIGHT_LEFT | C_RIGHT_LEFT_LEFT | C_LEFT_LEFT_RIGHT | C_RIGHT_DEEP.
 Definition foldable (o:option expr) : bool := is_bin o && negb (is_k KEq o).
+Definition both (a b:option expr) : option (num * num) := match cval a, cval b with Some x, Some y => Some (x,y) | _,_ => None end.
 Definition const_type : option (carr * num * num) :=
   let n := node in let l := olft n in let r := orgt n in
-  let both (a b:option expr) := match cval a, cval b with Some x, Some y => Some (x,y) | _,_ => None end in
   match (if is_neg n then (if foldable r then both (olft r) (orgt r) else None) else None) with
   | Some (x,y) => Some (C_NEG, x, y) | None =>
   match (if foldable n then both l r else None) with Some (x,y) => Some (C_SIMPLE, x, y) | None =>
@@ -275,13 +275,13 @@ Fixpoint add_spine (e:expr) (q:path) {struct q} : bool :=
   match q with
   | [] => true
   | d :: q' => match e, d with
-               | Bin KAdd l _, L => add_spine l q'
-               | Bin KAdd _ r, R => add_spine r q'
+               | Bin KAdd l _, DL => add_spine l q'
+               | Bin KAdd _ r, DR => add_spine r q'
                | _, _ => false end end.
 Definition top_level_addend : bool :=
   match root, p with
-  | Bin KEq rl _, L :: q => add_spine rl q
-  | Bin KEq _ rr, R :: q => add_spine rr q
+  | Bin KEq rl _, DL :: q => add_spine rl q
+  | Bin KEq _ rr, DR :: q => add_spine rr q
   | _, _ => false end.
 Definition bm_type : option bmt :=
   match root with
@@ -289,8 +289,8 @@ Definition bm_type : option bmt :=
     if is_k KEq par then None else
     if is_k KMul par && is_const node then
       (match cval node with Some v => if truthy v then
-        (match root_side with Some L => if contains_add rl then None else Some B_MUL
-                            | Some R => if contains_add rr then None else Some B_MUL | None => None end)
+        (match root_side with Some DL => if contains_add rl then None else Some B_MUL
+                            | Some DR => if contains_add rr then None else Some B_MUL | None => None end)
         else None | None => None end)
     else if is_k KAdd par then
       (if (is_const node || isSome (gte node)) && top_level_addend then Some B_ADD else None)
@@ -306,8 +306,8 @@ Definition bm_apply : rres (expr * path) :=
       match replace root q sib with
       | Bin KEq rl' rr' =>
         (match root_side with
-         | Some L => ROk (Bin KEq rl' (Bin KSub rr' n), [])
-         | Some R => ROk (Bin KEq (Bin KSub rl' n) rr', [])
+         | Some DL => ROk (Bin KEq rl' (Bin KSub rr' n), [])
+         | Some DR => ROk (Bin KEq (Bin KSub rl' n) rr', [])
          | None => RRaises RAssertion end)
       | _ => RRaises RAssertion end
     | _,_ => RRaises RAssertion end
@@ -324,7 +324,7 @@ Definition apply (r:rule) : rres (expr * path) :=
   | RAssoc => assoc_apply | RComm _ => comm_apply | RConst => const_apply
   | RFactor _ => df_apply | RDistr => dm_apply | RInverse => mi_apply | RRestate => rs_apply
   | RVarMul => vm_apply | RBalanced => bm_apply end.
-End R.
+End DR.
 
 (* BaseRule.find_nodes / find_node: in-order scan with the in-order index (r_index) *)
 Definition find_nodes (r:rule) (root:expr) : list (nat * path) :=
